@@ -1,7 +1,7 @@
 (* Dispatcher for the correspondence check: a case is a list of numbers whose head selects the
    engine; the result is the list of numbers the implementation must print for the same case. *)
 From Coq Require Import List NArith.
-From HecsV Require Import Model.EntityBits Model.Atomic Model.WorldRun.
+From HecsV Require Import Model.EntityBits Model.Atomic Model.WorldRun Model.ReserveRun.
 Import ListNotations.
 Open Scope N_scope.
 
@@ -10,6 +10,9 @@ Definition run_case (c : list N) : list N :=
   | 1 :: args => run_world args
   | 19 :: args => run_bits args
   | 6 :: args => run_borrow args
+  | 7 :: args => run_reserve args
+  (* real-thread reservation stress: c07_reserve predicts no duplicate, all contained, len exact *)
+  | 70 :: _ => [0; 0; 0]
   (* real-thread stress run: by c06_invariant/c06_quiescent every schedule ends with no ghost
      violation and an unborrowed flag *)
   | 60 :: _ => [0; 0]
